@@ -517,13 +517,24 @@ func runDrv(c *ctx) {
 			line := fmt.Sprintf("T drv.%s.%s %x %s = %s %s", kind, op, seid, toks, res, e.reqs())
 			if kind == "urr" {
 				line += " perio=" + perioOf()
-				// unregister again (Remove URR always unregisters), so that the groups of the next line start empty
+				// unregister again (Remove URR always unregisters), so that the groups of the next line start empty.  Now and
+				// then the data plane has lost the rule and refuses the removal (ENOENT): the periodic registration must go all
+				// the same — a removed URR, or one of an ended session, is not queried any more
+				refuse := r.chance(40)
+				if refuse {
+					e.k.mu.Lock()
+					e.k.objs = map[string][]simAttr{}
+					e.k.mu.Unlock()
+				}
 				for _, x := range ch {
 					if strings.HasPrefix(x.tok, "urrid:") {
 						e.g.RemoveURR(seid, ie.NewRemoveURR(x.ie))
 					}
 				}
-				perioOf()
+				after := perioOf()
+				if refuse {
+					line += " rm=" + after
+				}
 				e.reqs()
 			}
 			c.emit("%s", line)
